@@ -52,6 +52,8 @@ def matrix(thorough):
         cases.append("SV require=%s ccert=%s pmin=10 pmax=%s cmin=0" % (require, ccert, pmax))
     for verify, anchor, cert in itertools.product("01", ["A", "B"], certs):
         cases.append("HC verify=%s anchor=%s cert=%s" % (verify, anchor, cert))
+    for require, ccert in itertools.product("01", ["none", "valid", "untrusted", "expired"]):
+        cases.append("HS require=%s ccert=%s" % (require, ccert))
     cases += ["NC kind=client", "NC kind=listener", "CF kind=noca", "CF kind=mismatch", "CF kind=expired", "CF kind=ok",
               "PP kind=plain", "PP kind=garbage"]
     return cases
@@ -109,6 +111,8 @@ def run(ctx):
                     sig, what = "unauthenticated-server-accepted", "a TLS client session was established although the configuration's checks fail: %s (model %s)" % (ri, rm)
                     if "ver=1" in ri and ("ver=10" in ri or "ver=11" in ri):
                         sig, what = "tls-version-below-floor", "a session negotiated a protocol version below TLS 1.2: %s" % ri
+                elif kind == "HS" and "served=1" in ri:
+                    sig, what = "client-without-valid-certificate-admitted", "HttpServer (requireClientCert) served a client it should have rejected: %s (model %s)" % (ri, rm)
                 elif kind == "SV" and "admitted=1" in ri:
                     sig, what = "client-without-valid-certificate-admitted", "the server admitted a client it should have rejected: %s (model %s)" % (ri, rm)
                 elif kind == "NC":
@@ -126,7 +130,7 @@ def run(ctx):
                        "self-signed, expired, wrong name, wrong CA} x host {name, address} (60 cells); protocol ceilings TLS1.0-1.3 x "
                        "configured minimum {unset,1.0,1.1,1.2,1.3} on both roles (40); peer minimum 1.2/1.3; server side require {on,off} x "
                        "client certificate {none, valid, untrusted, expired} x ceiling {1.2,1.3} (16); HttpClient verify x anchor x "
-                       "certificate (20); TLS requested without context (client, listener); fail-fast configurations (verify without CA, "
+                       "certificate (20); HttpServer requireClientCert x client certificate (8); TLS requested without context (client, listener); fail-fast configurations (verify without CA, "
                        "key mismatch, expired server certificate); plaintext and garbage peers. Every cell is a real handshake; an "
                        "intercepting relay looks for the application payload in clear.")
         cov["samples"] = ["outcomes: %s" % sorted(outcomes.items())]
